@@ -466,6 +466,7 @@ def run_suite(suite, scratch, logdir, jobs=None):
                                             ("; ".join(f["desc"][:60] for f in r["failures"][:3]) or r.get("error", ""))[:160]))
             # keep the logs of anything that is not a clean pass
             if r["status"] != "pass" or os.environ.get("VERIF_KEEP_LOGS"):
+                os.makedirs(logdir, exist_ok=True)
                 for suf in (".cbmc.log", ".trace.log", ".goto.log"):
                     src = os.path.join(work, h.name + suf)
                     if os.path.exists(src) and os.path.getsize(src) < 50_000_000:
